@@ -1630,6 +1630,32 @@ impl VirtualFileSystem for Memfs {
         let dst_root = self._abs(&guard, dst)?;
         let copy_into = self._is_dir(&guard, &dst_root);
 
+        // Validate the move up front so that a failed move leaves the filesystem untouched
+        if !guard.contains_entry(&src_root) {
+            return Err(PathError::does_not_exist(src_root).into());
+        }
+        let dst_base = if copy_into { dst_root.mash(src_root.base()?) } else { dst_root.clone() };
+        if dst_base == src_root {
+            return Ok(());
+        }
+        // Moving a directory into itself can never complete
+        if dst_base.starts_with(&src_root) {
+            return Err(PathError::dir_does_not_match_parent(dst_base).into());
+        }
+        match guard.get_entry(&dst_base.dir()?) {
+            Some(parent) if parent.is_dir() && !parent.is_symlink() => {},
+            Some(_) => return Err(PathError::is_not_dir(dst_base.dir()?).into()),
+            None => return Err(PathError::parent_not_found(dst_base.dir()?).into()),
+        }
+        // Replace destination files and links but never directories
+        if let Some(entry) = guard.get_entry(&dst_base) {
+            if entry.is_dir() && !entry.is_symlink() {
+                return Err(PathError::exists_already(dst_base).into());
+            }
+            guard.remove_file(&dst_base);
+            guard.remove_entry(&dst_base);
+        }
+
         let mut paths = vec![src_root.clone()];
         while let Some(src_path) = paths.pop() {
             let dst_path = if copy_into {
